@@ -21,11 +21,27 @@ from collections import Counter
 from .cfg import Forward
 from .expr import strip_casts, const_value
 
-UNKNOWN = (-10 ** 9, ())   # no information: every requirement fails (None is reserved by the dataflow engine for "infeasible")
+UNKNOWN = (-10 ** 9, ())   # legacy sentinel form: "no information" (as an initial value it denotes the empty state)
+TOP = (10 ** 6, ())        # "no path reaches here yet" for interprocedural summaries (greatest element)
+NOTHING = ()               # state with no known lower bound
+TOPSTATE = (TOP,)
+
+# A *form* is (const, sorted tuple of symbols): the lower bound const + Σ symbols (symbols are non-negative).
+# A *state* is a tuple of forms that all hold (a conjunction of lower bounds); () knows nothing.
 
 
 def form(c=0, syms=()):
     return (int(c), tuple(sorted(syms)))
+
+
+def is_form(x):
+    return isinstance(x, tuple) and len(x) == 2 and isinstance(x[0], int)
+
+
+def is_top(x):
+    if is_form(x):
+        return x[0] >= 10 ** 5
+    return bool(x) and all(f[0] >= 10 ** 5 for f in x)
 
 
 def lin(n, names=None):
@@ -58,10 +74,13 @@ def lin(n, names=None):
     return None
 
 
-def leq(need, have):
+
+def leq_form(need, have):
     """need <= have for every valuation of the (non-negative) symbols"""
     if have is None or need is None or have == UNKNOWN:
         return False
+    if have[0] >= 10 ** 5:
+        return need[0] < 10 ** 5 or True
     cn, ch = Counter(need[1]), Counter(have[1])
     for s, k in cn.items():
         if ch.get(s, 0) < k:
@@ -69,39 +88,67 @@ def leq(need, have):
     return need[0] <= have[0]
 
 
-def sub(have, f):
-    if have is None or f is None or not leq(f, have):
-        # advancing by more than the known bound: the bound is lost, but if f is a pure constant the
-        # remaining window is still >= 0 only when covered; we give up soundly
-        return UNKNOWN if not (have is not None and f is not None and leq(f, have)) else None
-    c = Counter(have[1])
-    c.subtract(Counter(f[1]))
-    return form(have[0] - f[0], list(c.elements()))
+def as_state(x):
+    if x is None or x == UNKNOWN:
+        return NOTHING
+    if is_form(x):
+        return (x,)
+    return tuple(x)
 
 
-def meet(a, b):
-    if a is None or b is None or a == UNKNOWN or b == UNKNOWN:
-        return UNKNOWN
+def leq(need, have):
+    """the requirement `need` (a form) is implied by `have` (a form or a state)"""
+    if need is None:
+        return False
+    return any(leq_form(need, h) for h in as_state(have))
+
+
+def norm(forms):
+    fs = []
+    for f in set(forms):
+        if f is None or f == UNKNOWN or f[0] < -8:
+            continue
+        fs.append(f)
+    if any(f[0] >= 10 ** 5 for f in fs):
+        return TOPSTATE
+    keep = []
+    for f in fs:
+        if any(g != f and leq_form(f, g) for g in fs):
+            continue
+        keep.append(f)
+    keep.sort(key=lambda f: (-f[0], f[1]))
+    return tuple(keep[:4])
+
+
+def meet_form(a, b):
     ca, cb = Counter(a[1]), Counter(b[1])
     return form(min(a[0], b[0]), list((ca & cb).elements()))
 
 
-def better(a, b):
-    """the stronger of two valid lower bounds (both hold): keep the one that is >= the other, else a"""
-    if a is None or a == UNKNOWN:
+def meet(a, b):
+    """join of the dataflow (both paths possible): every pairwise weakest common bound"""
+    a, b = as_state(a), as_state(b)
+    if is_top(a):
         return b
-    if b is None or b == UNKNOWN:
+    if is_top(b):
         return a
-    if leq(a, b):
-        return b
-    return a
+    return norm([meet_form(x, y) for x in a for y in b])
+
+
+def better(a, b):
+    """both hold"""
+    return norm(list(as_state(a)) + list(as_state(b)))
 
 
 def show_form(f):
-    if f is None or f == UNKNOWN:
+    if f is None or f == UNKNOWN or f == NOTHING:
         return "nothing"
+    if not is_form(f):
+        return " and ".join(show_form(x) for x in f)
+    if f[0] >= 10 ** 5:
+        return "unreached"
     parts = [str(f[0])] if f[0] or not f[1] else []
-    return "+".join(parts + list(f[1]))
+    return "+".join(parts + [s for s in f[1]])
 
 
 class Window:
@@ -109,10 +156,10 @@ class Window:
         self.f = f
         self.edge_cb = edge
         self.elem_cb = elem
-        self.violations = []     # (Elem, need form, have form, what)
+        self.violations = []     # (Elem, need form, have state, what)
         self.checked = []        # (Elem, what) discharged
         self._collect = False
-        self.flow = Forward(f, init if init is not None else UNKNOWN, self._transfer, meet, edge=self._edge, eh=False)
+        self.flow = Forward(f, as_state(init), self._transfer, meet, edge=self._edge, eh=False)
         # second pass over the fixpoint to collect requirement verdicts
         self._collect = True
         for b in f.blocks.values():
@@ -133,29 +180,52 @@ class Window:
                     st = better(st, op[1])
             elif k == "need":
                 if self._collect and e is not None:
-                    if leq(op[1], st):
+                    if op[1] is not None and not is_top(op[1]) and leq(op[1], st):
                         self.checked.append((e, op[2]))
                     else:
                         self.violations.append((e, op[1], st, op[2]))
             elif k == "adv":
-                if st is not None and st != UNKNOWN and st[0] >= 10 ** 5 and op[1] is not None and not op[1][1]:
+                if is_top(st) and op[1] is not None and not op[1][1]:
                     if self._collect and e is not None and len(op) > 2:
-                        self.checked.append((e, op[2]))     # TOP (optimistic interprocedural start) absorbs constant advances; keeps the chain finite
-                elif st is not None and op[1] is not None and leq(op[1], st):
+                        self.checked.append((e, op[2]))   # TOP (optimistic interprocedural start) absorbs constant advances
+                elif op[1] is not None and leq(op[1], st):
                     if self._collect and e is not None and len(op) > 2:
                         self.checked.append((e, op[2]))
-                    c = Counter(st[1])
-                    c.subtract(Counter(op[1][1]))
-                    st = form(st[0] - op[1][0], list(c.elements()))
+                    out = []
+                    for g in st:
+                        if leq_form(op[1], g):
+                            c = Counter(g[1])
+                            c.subtract(Counter(op[1][1]))
+                            out.append(form(g[0] - op[1][0], list(c.elements())))
+                    st = norm(out)
                 else:
                     if self._collect and e is not None and len(op) > 2:
                         self.violations.append((e, op[1], st, op[2]))
-                    st = UNKNOWN
+                    # a labelled advance is a requirement: reported once, then assumed (the invariant avail >= 0 is restored)
+                    st = (form(0),) if len(op) > 2 else NOTHING
             elif k == "reset":
-                st = op[1] if op[1] is not None else UNKNOWN
+                st = as_state(op[1])
+            elif k == "zerosym":
+                # a local counter was just set to 0: avail >= c  ==>  avail >= c + counter
+                if not is_top(st):
+                    st = norm([g if op[1] in g[1] else form(g[0], list(g[1]) + [op[1]]) for g in st])
+            elif k == "incsym":
+                # counter += k: avail >= c + counter_old = (c - k) + counter_new
+                out = []
+                for g in st:
+                    if op[1] in g[1] and g[0] < 10 ** 5:
+                        c = g[0] - op[2] * list(g[1]).count(op[1])
+                        out.append(form(c, g[1]) if c >= -4 else form(g[0], [s for s in g[1] if s != op[1]]))
+                    else:
+                        out.append(g)
+                st = norm(out)
+            elif k == "shift":
+                # relative callee summary: the callee returns with at least (entry window + delta)
+                if not is_top(st):
+                    st = norm([form(g[0] + op[1], g[1]) for g in st if g[0] + op[1] >= 0 or g[1]])
             elif k == "kill":
-                if st is not None and st != UNKNOWN and op[1] in st[1]:
-                    st = form(st[0], [s for s in st[1] if s != op[1]])
+                if not is_top(st):
+                    st = norm([form(g[0], [s for s in g[1] if s != op[1]]) for g in st])
         return st
 
     def _transfer(self, st, e):
@@ -172,10 +242,7 @@ class Window:
         return st
 
 
-TOP = (10 ** 6, ())       # "no path reaches here yet" for interprocedural summaries (greatest element)
-
-
-def guard_ops(c, truth, cur, sizes, extra=None):
+def guard_ops(c, truth, cur, sizes, extra=None, canon=None):
     """knowledge about `size - cur` gained when condition `c` evaluates to `truth`.
 
     cur   : symbol of the cursor (as produced by lin(): variable name or shown member expression)
@@ -188,14 +255,14 @@ def guard_ops(c, truth, cur, sizes, extra=None):
         return []
     k = c.get("k")
     if k == "un" and c.get("op") == "!":
-        return guard_ops(c["v"], not truth, cur, sizes, extra)
+        return guard_ops(c["v"], not truth, cur, sizes, extra, canon)
     if k == "bin" and c.get("op") == "&&":
         if truth:
-            return guard_ops(c["lhs"], True, cur, sizes, extra) + guard_ops(c["rhs"], True, cur, sizes, extra)
+            return guard_ops(c["lhs"], True, cur, sizes, extra, canon) + guard_ops(c["rhs"], True, cur, sizes, extra, canon)
         return []
     if k == "bin" and c.get("op") == "||":
         if not truth:
-            return guard_ops(c["lhs"], False, cur, sizes, extra) + guard_ops(c["rhs"], False, cur, sizes, extra)
+            return guard_ops(c["lhs"], False, cur, sizes, extra, canon) + guard_ops(c["rhs"], False, cur, sizes, extra, canon)
         return []
     ops = list(extra(c, truth) or []) if extra else []
     cp = cmp_parts(c)
@@ -203,6 +270,8 @@ def guard_ops(c, truth, cur, sizes, extra=None):
         return ops
     op, l, r = cp
     fl, fr = lin(l), lin(r)
+    if canon is not None:
+        fl, fr = canon(fl), canon(fr)
     if fl is None or fr is None:
         return ops
     flip = {"<": ">", ">": "<", "<=": ">=", ">=": "<=", "==": "==", "!=": "!="}
